@@ -34,7 +34,7 @@ def plan(tier):
 
 def one(rec, hub, tier, seed, letters, pat, pi, what, ai, assign):
     fd = hub.fd
-    U = gen.universe(fd, dict(zip(letters, pat)))
+    U = gen.universe(fd, dict(zip(letters, pat)), rng=case_nprng(seed, f"c05.universe.{what}", 0, f"{pi}.{ai}"))
     rng = case_nprng(seed, f"c05.{what}", 0, f"{pi}.{ai}")
     if what == "read":
         drv.do_reads(hub, U, letters, assign, rng, "tagged")
